@@ -451,7 +451,19 @@ def do_assert(rt, what, value, ref_path, kind, actdir, n, strip=None):
             f.write(value)
         pin_mtime(ap)
         return quiet(rt.assertBinaryFileCorrect, ap, ref_path, kind=kind)
-    return quiet(rt.assertDataFrameCorrect, value, ref_path, kind=kind)
+    if n % 2 == 0 and len(value):
+        # actual_path names the file the frame was loaded from before it
+        # was filtered (here: a file holding every row twice); it is "used
+        # for error messages" only
+        import pandas as pd
+        ap = os.path.join(actdir, 'source%d.parquet' % n)
+        try:
+            pd.concat([value, value]).to_parquet(ap)
+            pin_mtime(ap)
+            kw['actual_path'] = ap
+        except Exception:
+            pass
+    return quiet(rt.assertDataFrameCorrect, value, ref_path, kind=kind, **kw)
 
 
 def run(case, ctx):
